@@ -1,46 +1,90 @@
 #!/usr/bin/env python3
-"""JSON from extract_consts.py -> coq/gen/Consts.v (Definition src_cfg : config)."""
+"""consts.json (tools/extract_consts.py) + probe.txt (vharness probe) -> coq/gen/Consts.v.
+The escape sets and the type/key character sets are finite and fully observable, so the values
+read from the source are cross-checked against an exhaustive probe of the running crate; on any
+difference (or an unrecognised source form) the probed value is used and a warning is recorded.
+Variation points (closed list of recognised source forms) fall back to the repaired-tree form;
+the correspondence check then decides whether the model still describes the code."""
 import json, sys
-d = json.load(open(sys.argv[1])); out = sys.argv[2]
-def bl(xs): return "[" + "; ".join(f"nb {x}" for x in xs) + "]"
-use = d['use']
-def set_of(comp, default):
-    names = use.get(comp, [default]); return d['sets'][names[0]]['members']
-problems = list(d['problems'])
-def flag(key, true_val, false_val):
-    v = d[key]
+d = json.load(open(sys.argv[1])); probe_txt = open(sys.argv[2]).read(); out = sys.argv[3]
+problems = [dict(what=p, affects=[]) for p in d.get('problems', [])]
+def warn(what, affects=()): problems.append(dict(what=what, affects=list(affects)))
+probe = {}
+for l in probe_txt.splitlines():
+    f = l.split(' ')
+    if f[0] == 'set': probe['set_' + f[1]] = [int(x) for x in f[2].split(',') if x]
+    elif f[0] in ('typechars', 'keychars'): probe[f[0]] = [int(x) for x in f[1].split(',') if x]
+    elif f[0] == 'ptype': probe.setdefault('ptypes', []).append((f[1], f[2]))
+def bl(xs): return '[' + '; '.join(f'nb {x}' for x in xs) + ']'
+use = d.get('use', {}); sets = d.get('sets', {})
+def src_set(comp):
+    names = use.get(comp)
+    if not names or len(names) != 1 or names[0] not in sets: return None
+    return sets[names[0]]['members']
+def pick(comp, pos, default_name):
+    s = src_set(comp); p = probe.get('set_' + pos)
+    if s is None:
+        warn(f'escape set for {comp} not recognised in format.rs')
+        s = p if p is not None else sets.get(default_name, {}).get('members', [])
+    elif p is not None and s != p:
+        warn(f'escape set for {comp}: source says {sorted(set(s) ^ set(p))} differently from the running crate; using the probed set')
+        s = p
+    return s
+s_ns = pick('namespace', 'ns', 'PURL_PATH'); s_name = pick('name', 'name', 'PURL_PATH_SEGMENT'); s_ver = pick('version', 'ver', 'PURL_PATH')
+s_q = pick('v', 'qval', 'PURL_QUERY'); s_sub = pick('subpath', 'sub', 'PURL_FRAGMENT')
+if s_ns != s_ver: warn('namespace and version use different escape sets; the model has one set for both (namespace set used)')
+if src_set('k') is not None and src_set('k') != src_set('v'): warn('qualifier keys and values use different escape sets; the model has one set for both')
+ALNUM = set(range(48, 58)) | set(range(65, 91)) | set(range(97, 123))
+def special(key, probe_key):
+    s = d.get(key); p = probe.get(probe_key)
+    ps = sorted(set(p) - ALNUM) if p is not None else None
+    if s is None:
+        warn(f'{key} not recognised'); return ps or []
+    if ps is not None and sorted(s) != ps:
+        warn(f'{key}: source {s} but the running crate allows {ps}; using the probed list'); return ps
+    if p is not None and not ALNUM <= set(p):
+        warn(f'{key}: not every ASCII letter/digit is allowed by the running crate', ['*'])
+    return s
+tsp = special('type_special', 'typechars'); ksp = special('key_special', 'keychars')
+dash = d.get('dash_chars')
+if dash is None: warn('DASH_CHARACTERS not recognised'); dash = [45, 95, 46]
+exp_names = [('Cargo', 'cargo'), ('Gem', 'gem'), ('Golang', 'golang'), ('Maven', 'maven'), ('Npm', 'npm'), ('NuGet', 'nuget'), ('PyPI', 'pypi')]
+if [tuple(x) for x in d.get('name', [])] != exp_names: warn(f"PackageType::name() table differs from the model's: {d.get('name')}", ['C15', 'C08'])
+if sorted((v, k) for k, v in map(tuple, d.get('phf', []))) != sorted(exp_names): warn(f"PACKAGE_TYPES table differs from the model's: {d.get('phf')}", ['C15', 'C08'])
+if probe.get('ptypes') and probe['ptypes'] != exp_names: warn(f"running crate reports other type names: {probe.get('ptypes')}", ['C15', 'C08'])
+def flag(key, true_val, false_val, default='true'):
+    v = d.get(key)
     if v == true_val: return 'true'
     if v == false_val: return 'false'
-    problems.append(f'variation point {key} unrecognised: {v}'); return 'false'
+    warn(f'variation point {key} not recognised ({v}); the model uses the default form'); return default
 scan_ip = flag('scan_in_place', 'ScanLowerNe', 'ScanUpper'); scan_cp = flag('scan_copy', 'ScanLowerNe', 'ScanUpper')
-if scan_ip != scan_cp: problems.append('the two lower-casing scans differ')
+if scan_ip != scan_cp: warn('the two lower-casing scans differ; the model has one form (that of lowercase_in_place)')
 cap = flag('cap_form', 'CapSaturating', 'CapMinus1'); mv = flag('maven_ns', 'NsNoSegment', 'NsIsEmpty')
 def direction(ch):
-    hits = [m for (m, lit, c) in map(tuple, d['skeleton']) if c == ch and m in ('rsplit_once', 'split_once')]
-    if ch == '/':  # '/' occurs twice (type: split_once, namespace: rsplit_once); not a variation point
-        return None
-    if len(hits) != 1: problems.append(f"split at {ch!r} unrecognised: {hits}"); return 'true'
+    hits = [m for (m, lit, c) in map(tuple, d.get('skeleton', [])) if c == ch and m in ('rsplit_once', 'split_once')]
+    if len(hits) != 1:
+        warn(f"split at {ch!r} not recognised: {hits}"); return 'true'
     return 'true' if hits[0] == 'rsplit_once' else 'false'
 dsub, dq, dv = direction('#'), direction('?'), direction('@')
-exp = [('strip_prefix', 'pkg:', ''), ('trim_start_matches', '', '/')]
-if [tuple(x) for x in d['skeleton'][:2]] != exp: problems.append(f"scheme/leading-slash handling unrecognised: {d['skeleton'][:2]}")
-slashes = [m for (m, lit, c) in map(tuple, d['skeleton']) if c == '/' and m in ('rsplit_once', 'split_once')]
-if slashes != ['split_once', 'rsplit_once']: problems.append(f"type/namespace splits unrecognised: {slashes}")
-src = f"""(* generated by tools/gen_consts_v.py from {sys.argv[1]} — do not edit *)
+sk = [tuple(x) for x in d.get('skeleton', [])]
+if sk[:2] != [('strip_prefix', 'pkg:', ''), ('trim_start_matches', '', '/')]: warn(f'scheme / leading-slash handling not recognised: {sk[:2]}')
+if [m for (m, lit, c) in sk if c == '/' and m in ('rsplit_once', 'split_once')] != ['split_once', 'rsplit_once']: warn('type / namespace splits not recognised')
+if d.get('checksum_key') != ['checksum']: warn(f"Checksum::KEY is {d.get('checksum_key')}", ['C12', 'C04'])
+src = f"""(* generated by tools/gen_consts_v.py from the current /repo/purl/src - do not edit *)
 From Coq Require Import List NArith.
 From PM Require Import Base Text Model Tables.
 Import ListNotations.
 Local Open Scope N_scope.
 Definition src_cfg : config :=
-  {{| set_path := {bl(set_of('namespace','PURL_PATH'))};
-     set_seg := {bl(set_of('name','PURL_PATH_SEGMENT'))};
-     set_query := {bl(set_of('v','PURL_QUERY'))};
-     set_frag := {bl(set_of('subpath','PURL_FRAGMENT'))};
-     type_special := {bl(d['type_special'])}; key_special := {bl(d['key_special'])}; dash_chars := {bl(d['dash_chars'])};
+  {{| set_path := {bl(s_ns)};
+     set_seg := {bl(s_name)};
+     set_query := {bl(s_q)};
+     set_frag := {bl(s_sub)};
+     type_special := {bl(tsp)}; key_special := {bl(ksp)}; dash_chars := {bl(dash)};
      lower_tbl := std_lower_tbl; upper_rng := std_upper_rng; fold_tbl := unicase_fold_tbl;
      scan_lower_ne := {scan_ip}; cap_saturating := {cap}; maven_ns_segments := {mv};
      dir_sub := {dsub}; dir_qual := {dq}; dir_ver := {dv} |}}.
 """
 open(out, 'w').write(src)
-json.dump({'problems': problems}, open(out + '.problems.json', 'w'))
-print(f"wrote {out}; problems: {problems}")
+json.dump({'problems': problems, 'source': {k: d.get(k) for k in ('scan_in_place', 'scan_copy', 'cap_form', 'maven_ns', 'type_special', 'key_special', 'dash_chars')},
+           'sets': {k: v.get('line') for k, v in sets.items()}}, open(out + '.problems.json', 'w'))
